@@ -315,10 +315,25 @@ func (w SocialWrappedCallbacks) update(c context.Context, a vocab.ActivityStream
 		} else if t == nil {
 			return ErrNotFound
 		}
-		// With its '@context': the merged value is deserialized below.
-		m, err := streams.Serialize(t)
+		m, err := t.Serialize()
 		if err != nil {
 			return err
+		}
+		if _, ok := m["@context"]; !ok {
+			// The merged value is deserialized below, which needs an
+			// '@context'. A stored value that has none of its own (a
+			// Database that keeps the values it is handed) gets the one
+			// it would be written with, in the form the decoder reads.
+			// A value that has one keeps it as it is.
+			var ctx []interface{}
+			for vocabURI, alias := range t.JSONLDContext() {
+				if len(alias) == 0 {
+					ctx = append(ctx, vocabURI)
+				} else {
+					ctx = append(ctx, map[string]interface{}{vocabURI: alias})
+				}
+			}
+			m["@context"] = ctx
 		}
 		// Copy over new top-level values.
 		objType := op.At(idx).GetType()
